@@ -420,6 +420,16 @@ def rule_iop(repo):
     res = RuleResult('C03.IOP', 'every arithmetic operator LieTensor overrides with Lie semantics has its augmented twin overridden as well, delegating to '
                      'the same Lie operation (or its in-place variant): `X *= Y` / `X += a` never fall through to torch\'s element-wise in-place operation', floor=2)
     ci = repo.cls(LT, 'LieTensor')
+    # an augmented dunder that torch.Tensor does NOT define (`@=`: Python falls back to `Z = Z @ Y`, a re-binding) must not appear on LieTensor: defining it turns
+    # every existing `Z @= Y` into a write through all aliases of Z (`Z = X; Z @= Y` changes X; a slice of a trajectory is rewritten), and the in-place copy
+    # cannot broadcast the way the re-binding did
+    for name, g in sorted(ci.methods.items()):
+        if name.startswith('__i') and name.endswith('__') and name not in ('__init__', '__iter__', '__index__', '__int__', '__invert__', '__instancecheck__') and \
+                name not in TENSOR_INPLACE_DUNDERS.values():
+            res.inst({'class': ci.fq, 'augmented operator': name, 'defined by torch.Tensor': False}, (ci.fq, name, 'extra'))
+            res.add(Finding('C03.IOP', g, 'LieTensor defines `%s`, which torch.Tensor leaves to the re-binding fallback: `Z %s= Y` used to bind Z to a NEW tensor and now '
+                            'writes into the storage Z shares with whatever it was taken from (`Z = X; Z %s= Y` changes X), and raises where the result needs a larger '
+                            'batch shape' % (name, {'__imatmul__': '@'}.get(name, '?'), {'__imatmul__': '@'}.get(name, '?')), construct='extra augmented operator ' + name))
     for op, iop in sorted(TENSOR_INPLACE_DUNDERS.items()):
         if op not in ci.methods:
             continue
